@@ -608,16 +608,32 @@ def check_call_args(facts, run, prop, table, cfg):
             n += 1
             ok = False
             detail = "no call to %s" % ent["callee"]
-            for b in fn["blocks"]:
-                t = b["t"]
-                if t[0] != "call" or not re.fullmatch(ent["callee"], norm_name(t[1]["f"])):
-                    continue
+            calls_ = [b["t"] for b in fn["blocks"] if b["t"][0] == "call" and re.fullmatch(ent["callee"], norm_name(b["t"][1]["f"]))]
+            renamed_pi = None
+            if not calls_ and ent.get("params_idx"):
+                # the shared inner routine under another (private) name: the one call into the same module whose callee
+                # has the parameter count of a reviewed inner routine; the reviewed positions apply
+                mod = "::".join(norm_name(fn["name"]).split("::")[:2]) + "::"
+                for b in fn["blocks"]:
+                    t = b["t"]
+                    tg = facts.fns.get(t[1].get("id")) if t[0] == "call" and t[1].get("l") else None
+                    if tg is None or not norm_name(tg["name"]).startswith(mod) or tg.get("reach"):
+                        continue
+                    for rn, pi_ in sorted(ent["params_idx"].items()):
+                        same_owner = rn.split("::")[-2] == norm_name(tg["name"]).split("::")[-2]
+                        if pi_.get("argc") == tg["argc"] and same_owner:
+                            calls_.append(t)
+                            renamed_pi = pi_
+                            break
+                    if renamed_pi:
+                        break
+            for t in calls_:
                 tgt = facts.fns.get(t[1]["id"])
                 if tgt is None:
                     continue
                 ok = True
-                pi = (ent.get("params_idx") or {}).get(norm_name(tgt["name"]))
-                plist = [(int(k_) - 1, v_, k_) for k_, v_ in pi.items()] if pi else None
+                pi = renamed_pi or (ent.get("params_idx") or {}).get(norm_name(tgt["name"]))
+                plist = [(int(k_) - 1, v_, k_) for k_, v_ in pi.items() if k_ != "argc"] if pi else None
                 for pname, want in (ent["params"].items() if plist is None else [(x[2], x[1]) for x in plist]):
                     idx = None
                     if plist is not None:
